@@ -123,7 +123,12 @@ impl NcWorld {
             max_clients: getu(cfg, "max_clients").max(1) as usize,
             protocol_id: PROTO_P,
             public_addresses: (1..=n_addr).map(srv_addr).collect(),
-            authentication: ServerAuthentication::Secure { private_key: KEY_K },
+            // cfg.secure = false: ServerAuthentication::Unsecure (all-zero connect key, host list not checked)
+            authentication: if cfg.get("secure").and_then(|v| v.as_bool()) == Some(false) {
+                ServerAuthentication::Unsecure
+            } else {
+                ServerAuthentication::Secure { private_key: KEY_K }
+            },
         };
         NcWorld {
             server: NetcodeServer::new(config),
@@ -599,7 +604,12 @@ impl<W: Write> NcRunner<W> {
             }
             "token" => {
                 let name = gets(st, "t").to_string();
-                let key = if gets(st, "key") == "F" { KEY_F } else { KEY_K };
+                // "Z": the all-zero key ClientAuthentication::Unsecure seals its self-made token with
+                let key = match gets(st, "key") {
+                    "F" => KEY_F,
+                    "Z" => [0u8; 32],
+                    _ => KEY_K,
+                };
                 let proto = if gets(st, "proto") == "Q" { PROTO_Q } else { PROTO_P };
                 let hosts: Vec<SocketAddr> = st["hosts"].as_array().map(|a| a.iter().map(|x| srv_addr(x.as_u64().unwrap_or(1))).collect()).unwrap_or_default();
                 let create = Duration::from_millis(getu(st, "create_ms"));
@@ -657,7 +667,7 @@ impl<W: Write> NcRunner<W> {
                 let tampered = st.get("tamper").map(|m| gets(m, "field").to_string()).unwrap_or_else(|| "none".into());
                 self.emit(json!({"ev":"token","t":name,"id":getu(st,"id"),"ud":getu(st,"ud"),"hosts":st["hosts"],
                     "create":getu(st,"create_ms")/1000,"expire":getu(st,"create_ms")/1000 + getu(st,"expire_s"),"timeout":geti(st,"timeout_s"),
-                    "sealed":if gets(st,"key")=="F" {"F"} else {"K"},"proto":if gets(st,"proto")=="Q" {"Q"} else {"P"},"cproto":cproto,"tamper":tampered,"ok":ok}));
+                    "sealed":match gets(st,"key") { "F" => "F", "Z" => "Z", _ => "K" },"proto":if gets(st,"proto")=="Q" {"Q"} else {"P"},"cproto":cproto,"tamper":tampered,"ok":ok}));
             }
             "client" => {
                 let name = gets(st, "c").to_string();
